@@ -77,6 +77,18 @@ inline std::string S(const Paths64& ps) {
   for (auto& p : ps) { s += ' '; s += S(p); }
   return s;
 }
+// inverse of S(Paths64) on a token stream (used by the single-input mode that the shrinker of ./check drives)
+inline bool parse_paths(std::istream& is, Paths64& out) {
+  long long n; if (!(is >> n) || n < 0 || n > 100000) return false;
+  out.clear();
+  for (long long i = 0; i < n; ++i) {
+    long long m; if (!(is >> m) || m < 0 || m > 10000000) return false;
+    Path64 p;
+    for (long long k = 0; k < m; ++k) { long long x, y; if (!(is >> x >> y)) return false; p.emplace_back((int64_t)x, (int64_t)y); }
+    out.push_back(p);
+  }
+  return true;
+}
 inline std::string SD(const PathD& p) {
   std::string s = std::to_string(p.size());
   for (auto& q : p) { s += ' '; s += hexd(q.x); s += ' '; s += hexd(q.y); }
